@@ -2602,3 +2602,416 @@ Proof.
     assert (col_eqb x x = true) by (unfold col_eqb; rewrite N.eqb_refl; destruct (c_type x); reflexivity).
     rewrite H in H2. simpl in H2. now apply IH.
 Qed.
+
+(* ---------------------------------------------------------------------------------- *)
+(* deepening round 3: the bookkeeping that decides the F17 / F25 tags rests on theorems  *)
+(* ---------------------------------------------------------------------------------- *)
+Definition op_xs (o : top) : list xchg :=
+  match o with TO_exec _ _ _ xs _ | TO_batch _ _ _ xs _ => xs | TO_event _ _ => [] end.
+
+(* exchange x is a re-preparation of statement s that announced the (non-empty) columns [cols] *)
+Definition reprep_in (ST : nat -> stmt) (ns : nat) (s : nat) (cols : list col) (x : xchg) : Prop :=
+  exists t pm, x_req x = Q_prepare t /\ stmt_of_text ST ns t = Some s /\
+               x_resp x = RPrepared (s_id (ST s)) pm /\ m_cols pm = cols /\ cols <> [].
+
+Lemma col_eqb_refl x : col_eqb x x = true.
+Proof. unfold col_eqb. rewrite N.eqb_refl. destruct (c_type x); reflexivity. Qed.
+Lemma list_eqb_col_refl l : list_eqb col_eqb l l = true.
+Proof. induction l as [|x r IH]; simpl; [reflexivity|]. now rewrite col_eqb_refl, IH. Qed.
+Lemma is_nil_false {A} (l : list A) : is_nil l = false -> l <> [].
+Proof. destruct l; simpl; congruence. Qed.
+
+Section StaleSound.
+Variable ST : nat -> stmt.
+Variable ns : nat.
+Variable full : list top.
+
+(* where the "latest announcement was a re-preparation" flag comes from *)
+Definition sinv_an (bound : nat) (an : ann_state) : Prop :=
+  forall s, an_reprep an s = true ->
+    exists j o x, (j < bound)%nat /\ nth_error full j = Some o /\ In x (op_xs o) /\
+                  reprep_in ST ns s (an_latest an s) x.
+
+Lemma sinv_an_mono b b' an : (b <= b')%nat -> sinv_an b an -> sinv_an b' an.
+Proof. intros L H s Hs. destruct (H s Hs) as [j [o [x [A B]]]]. exists j, o, x. split; [lia|exact B]. Qed.
+
+Lemma ann_xchg_inv i0 o an x :
+  nth_error full i0 = Some o -> In x (op_xs o) -> sinv_an (S i0) an -> sinv_an (S i0) (ann_xchg ST ns an x).
+Proof.
+  intros Hn Hx HI. unfold ann_xchg.
+  destruct (x_req x) as [f|t|bf] eqn:EQ; try exact HI.
+  - destruct (x_resp x) as [b| | | | | |] eqn:ER; try exact HI.
+    destruct (rb_meta b) as [n|[i|] cols]; try exact HI.
+    destruct (stmt_of_id ST ns (f_id f)) as [s|]; [|exact HI].
+    intros s' Hs'. simpl in Hs'. unfold upd in Hs'. simpl. unfold upd.
+    destruct (Nat.eqb s' s); [discriminate|]. apply HI. exact Hs'.
+  - destruct (x_resp x) as [| | | |id m| |] eqn:ER; try exact HI.
+    destruct (stmt_of_text ST ns t) as [s|] eqn:ET; [|exact HI].
+    destruct (bytes_eqb id (s_id (ST s)) && negb (is_nil (m_cols m))) eqn:EC; [|exact HI].
+    apply andb_true_iff in EC. destruct EC as [E1 E2]. apply bytes_eqb_eq in E1. subst id.
+    apply negb_true_iff in E2. apply is_nil_false in E2.
+    intros s' Hs'. simpl in *. unfold upd in *. destruct (Nat.eqb s' s) eqn:EE.
+    + apply Nat.eqb_eq in EE. subst s'. exists i0, o, x. split; [lia|]. split; [exact Hn|]. split; [exact Hx|].
+      exists t, m. auto.
+    + apply HI. exact Hs'.
+Qed.
+
+Lemma fold_ann_inv i0 o : nth_error full i0 = Some o ->
+  forall xs an, (forall x, In x xs -> In x (op_xs o)) -> sinv_an (S i0) an ->
+  sinv_an (S i0) (fold_left (ann_xchg ST ns) xs an).
+Proof.
+  intros Hn. induction xs as [|x r IH]; intros an Hsub HI; simpl; [exact HI|].
+  apply IH; [intros y Hy; apply Hsub; now right|].
+  apply (ann_xchg_inv i0 o an x Hn); [apply Hsub; now left|exact HI].
+Qed.
+
+(* what a hit tagged "in class" means on the trace *)
+Definition stale_evidence (i : nat) : Prop :=
+  exists nd a xs cols pg rows t,
+    nth_error full i = Some (TO_exec nd false a xs (OB_rows cols pg rows t)) /\
+    xa_use_cached a = true /\
+    (exists x f b n, last (map Some xs) None = Some x /\ x_req x = Q_execute f /\ f_skip f = true /\
+                     x_resp x = RRows b /\ rb_meta b = RM_none n) /\
+    exists j o x c', (j <= i)%nat /\ nth_error full j = Some o /\ In x (op_xs o) /\
+                     reprep_in ST ns (xa_stmt a) c' x /\ c' <> cols.
+
+Lemma stale_op_true an ext a xs out :
+  stale_op ST ns an ext a xs out = Some true ->
+  ext = false /\ xa_use_cached a = true /\ an_reprep an (xa_stmt a) = true /\
+  exists cols pg rows t, out = OB_rows cols pg rows t /\ an_latest an (xa_stmt a) <> cols /\
+    exists x f b n, last (map Some xs) None = Some x /\ x_req x = Q_execute f /\ f_skip f = true /\
+                    x_resp x = RRows b /\ rb_meta b = RM_none n.
+Proof.
+  unfold stale_op. destruct (last (map Some xs) None) as [x|] eqn:EL; [|discriminate].
+  destruct out as [cols pg rows t| |e]; try discriminate.
+  destruct (x_req x) as [f| |] eqn:EQ; try discriminate.
+  destruct (x_resp x) as [b| | | | | |] eqn:ER; try discriminate.
+  destruct (rb_meta b) as [n|nid c] eqn:EM; [|discriminate].
+  destruct (f_skip f && negb (list_eqb col_eqb cols (an_latest an (xa_stmt a)))) eqn:EC; [|discriminate].
+  intros H. injection H as HQ. apply andb_true_iff in HQ. destruct HQ as [Q R].
+  unfold quadrantb in Q. apply andb_true_iff in Q. destruct Q as [Q1 Q2]. apply negb_true_iff in Q1.
+  apply andb_true_iff in EC. destruct EC as [SK NE]. apply negb_true_iff in NE.
+  split; [assumption|]. split; [assumption|]. split; [assumption|].
+  exists cols, pg, rows, t. split; [reflexivity|]. split.
+  - intros E. rewrite E in NE. rewrite list_eqb_col_refl in NE. discriminate.
+  - exists x, f, b, n. auto.
+Qed.
+
+Lemma stale_check_tag_trace cp : forall tr i0 an,
+  (forall k o, nth_error tr k = Some o -> nth_error full (i0 + k) = Some o) ->
+  sinv_an i0 an ->
+  forall i, In (i, Some true) (stale_check ST ns cp an i0 tr) -> stale_evidence i.
+Proof.
+  induction tr as [|o r IH]; intros i0 an Hfull HI i Hin; simpl in Hin; [destruct Hin|].
+  assert (Hn0 : nth_error full i0 = Some o) by (rewrite <- (Nat.add_0_r i0); apply Hfull; reflexivity).
+  assert (Hfull' : forall k o', nth_error r k = Some o' -> nth_error full (S i0 + k) = Some o').
+  { intros k o' Hk. replace (S i0 + k)%nat with (i0 + S k)%nat by lia. apply Hfull. exact Hk. }
+  destruct o as [nd ext a xs out|nd ext b xs out|nd e].
+  - set (an' := fold_left (ann_xchg ST ns) xs an) in *.
+    assert (HI' : sinv_an (S i0) an').
+    { apply (fold_ann_inv i0 _ Hn0); [intros x Hx; exact Hx|]. eapply sinv_an_mono; [|exact HI]. lia. }
+    assert (Hrest : In (i, Some true) (stale_check ST ns cp an' (S i0) r) -> stale_evidence i)
+      by (apply IH; assumption).
+    assert (Hop : In (i, Some true)
+                    (match stale_op ST ns an' ext a xs out with
+                     | Some cl => (i0, Some cl) :: stale_check ST ns cp an' (S i0) r
+                     | None => stale_check ST ns cp an' (S i0) r end) -> stale_evidence i).
+    { destruct (stale_op ST ns an' ext a xs out) as [cl|] eqn:ES; [|exact Hrest].
+      intros [E|Hr]; [|now apply Hrest]. inversion E; subst i cl.
+      destruct (stale_op_true _ _ _ _ _ ES) as [-> [Huc [Hrp [cols [pg [rows [t [-> [NE LX]]]]]]]]].
+      destruct (HI' _ Hrp) as [j [o [x [Hj [Hnj [Hxj RP]]]]]].
+      exists nd, a, xs, cols, pg, rows, t. split; [exact Hn0|]. split; [exact Huc|]. split; [exact LX|].
+      exists j, o, x, (an_latest an' (xa_stmt a)). split; [lia|]. auto. }
+    destruct (cp && negb (present_op ST ns an ext a xs)).
+    + destruct Hin as [E|Hin]; [discriminate E|]. now apply Hop.
+    + now apply Hop.
+  - apply (IH (S i0) (fold_left (ann_xchg ST ns) xs an)); try assumption.
+    apply (fold_ann_inv i0 _ Hn0); [intros x Hx; exact Hx|]. eapply sinv_an_mono; [|exact HI]. lia.
+  - apply (IH (S i0) an); try assumption. eapply sinv_an_mono; [|exact HI]. lia.
+Qed.
+End StaleSound.
+
+(* with the acceptor: the tag implies the class, on the final state of the accepted run *)
+Lemma stale_check_tag_sound ST ns init tr c' st' cp an0 i :
+  g_accept ST (ginit init) O tr = (c', V_ok st') ->
+  (forall s, an_reprep an0 s = false) ->
+  In (i, Some true) (stale_check ST ns cp an0 O tr) ->
+  exists nd a xs cols pg rows t,
+    nth_error tr i = Some (TO_exec nd false a xs (OB_rows cols pg rows t)) /\
+    KnownClass ST st' i cols.
+Proof.
+  intros HA H0 Hin.
+  destruct (g_accept_sound ST _ _ _ _ _ HA) as [_ HM].
+  assert (EV : stale_evidence ST ns tr i).
+  { eapply (stale_check_tag_trace ST ns tr cp tr O an0); [intros k o Hk; exact Hk| |exact Hin].
+    intros s Hs. rewrite H0 in Hs. discriminate. }
+  destruct EV as (nd & a & xs & cols & pg & rows & t & Hn & Huc & _ & j & o & x & c0 & Hj & Hnj & Hx & RP & NE).
+  exists nd, a, xs, cols, pg, rows, t. split; [exact Hn|].
+  pose proof (HM i _ Hn) as Mi. simpl in Mi. destruct Mi as [Hxi [Hei _]].
+  exists a. split; [exact Hxi|]. split; [exact Hei|]. split; [exact Huc|].
+  destruct RP as (tx & pm & RQ & _ & RR & RC & RN).
+  assert (HR : In (RPrepared (s_id (ST (xa_stmt a))) pm) (k_rcvd (g_calls st' j))).
+  { pose proof (HM j _ Hnj) as Mj. destruct o as [nd' e' a' xs' out'|nd' e' b' xs' out'|nd' e']; simpl in Hx; [| |destruct Hx].
+    - simpl in Mj. destruct Mj as [_ [_ [Hr _]]]. rewrite Hr. apply in_rev. rewrite rev_involutive.
+      rewrite <- RR. now apply in_map.
+    - simpl in Mj. destruct Mj as [_ [_ [Hr _]]]. rewrite Hr. apply in_rev. rewrite rev_involutive.
+      rewrite <- RR. now apply in_map. }
+  exists j, (s_id (ST (xa_stmt a))), pm. split; [exact HR|]. split; [reflexivity|]. rewrite RC. auto.
+Qed.
+
+(* ---- the per-node bookkeeping of the nodes without the extension ---- *)
+Lemma last_some_in {A} (l : list A) x : last (map Some l) None = Some x -> In x l.
+Proof.
+  induction l as [|y r IH]; simpl; [discriminate|].
+  destruct r as [|z r']; simpl in *; [intros H; inversion H; now left|]. intros H. right. apply IH. exact H.
+Qed.
+
+Lemma cp_skip_noext uc m : cp_skip false uc m = true -> uc = true.
+Proof. unfold cp_skip. destruct (m_count m =? 0); [discriminate|]. now rewrite orb_false_r. Qed.
+
+Section PlainSound.
+Variable ST : nat -> stmt.
+Variable ns : nat.
+Variable full : list top.
+Variable prep : nat -> nat -> list col.      (* what node nd announced for statement s at preparation *)
+
+Definition pinv_an (bound : nat) (an : nat -> nat -> list col * bool) : Prop :=
+  forall nd s,
+    (snd (an nd s) = false -> fst (an nd s) = prep nd s) /\
+    (snd (an nd s) = true ->
+       exists j o x, (j < bound)%nat /\ nth_error full j = Some o /\ In x (op_xs o) /\
+                     reprep_in ST ns s (fst (an nd s)) x).
+
+Lemma pinv_an_mono b b' an : (b <= b')%nat -> pinv_an b an -> pinv_an b' an.
+Proof.
+  intros L H nd s. destruct (H nd s) as [A B]. split; [exact A|]. intros Hs.
+  destruct (B Hs) as [j [o [x [C Dd]]]]. exists j, o, x. split; [lia|exact Dd].
+Qed.
+
+Lemma pn_xchg_inv i0 o nd an x :
+  nth_error full i0 = Some o -> In x (op_xs o) -> pinv_an (S i0) an -> pinv_an (S i0) (pn_xchg ST ns nd an x).
+Proof.
+  intros Hn Hx HI. unfold pn_xchg.
+  destruct (x_req x) as [f|t|bf] eqn:EQ; try exact HI.
+  destruct (x_resp x) as [| | | |id m| |] eqn:ER; try exact HI.
+  destruct (stmt_of_text ST ns t) as [s|] eqn:ET; [|exact HI].
+  destruct (bytes_eqb id (s_id (ST s)) && negb (is_nil (m_cols m))) eqn:EC; [|exact HI].
+  apply andb_true_iff in EC. destruct EC as [E1 E2]. apply bytes_eqb_eq in E1. subst id.
+  apply negb_true_iff in E2. apply is_nil_false in E2.
+  intros nd' s'. unfold upd. destruct (Nat.eqb nd' nd) eqn:EN; [|apply HI].
+  destruct (Nat.eqb s' s) eqn:EE; [|apply Nat.eqb_eq in EN; subst nd'; apply HI].
+  apply Nat.eqb_eq in EE. subst s'. simpl. split; [discriminate|]. intros _.
+  exists i0, o, x. split; [lia|]. split; [exact Hn|]. split; [exact Hx|]. exists t, m. auto.
+Qed.
+
+Lemma fold_pn_inv i0 o nd : nth_error full i0 = Some o ->
+  forall xs an, (forall x, In x xs -> In x (op_xs o)) -> pinv_an (S i0) an ->
+  pinv_an (S i0) (fold_left (pn_xchg ST ns nd) xs an).
+Proof.
+  intros Hn. induction xs as [|x r IH]; intros an Hsub HI; simpl; [exact HI|].
+  apply IH; [intros y Hy; apply Hsub; now right|].
+  apply (pn_xchg_inv i0 o nd an x Hn); [apply Hsub; now left|exact HI].
+Qed.
+
+(* what a hit means on the trace: rows that came without metadata (as requested) from a node without the
+   extension were decoded with [cols], while that node's latest announcement — its answer at preparation
+   (flag false) or one of its re-preparations recorded earlier in the trace (flag true) — had other,
+   non-empty columns *)
+Definition plain_evidence (i : nat) (from_reprep : bool) : Prop :=
+  exists nd a xs cols pg rows t,
+    nth_error full i = Some (TO_exec nd false a xs (OB_rows cols pg rows t)) /\
+    (exists x f b n, In x xs /\ x_req x = Q_execute f /\ f_skip f = true /\
+                     x_resp x = RRows b /\ rb_meta b = RM_none n) /\
+    if from_reprep then
+      exists j o x c', (j <= i)%nat /\ nth_error full j = Some o /\ In x (op_xs o) /\
+                       reprep_in ST ns (xa_stmt a) c' x /\ c' <> cols
+    else prep nd (xa_stmt a) <> [] /\ prep nd (xa_stmt a) <> cols.
+
+Lemma plain_node_check_trace : forall tr i0 an,
+  (forall k o, nth_error tr k = Some o -> nth_error full (i0 + k) = Some o) ->
+  pinv_an i0 an ->
+  forall i r, In (i, r) (plain_node_check ST ns an i0 tr) -> plain_evidence i r.
+Proof.
+  induction tr as [|o r IH]; intros i0 an Hfull HI i fr Hin; simpl in Hin; [destruct Hin|].
+  assert (Hn0 : nth_error full i0 = Some o) by (rewrite <- (Nat.add_0_r i0); apply Hfull; reflexivity).
+  assert (Hfull' : forall k o', nth_error r k = Some o' -> nth_error full (S i0 + k) = Some o').
+  { intros k o' Hk. replace (S i0 + k)%nat with (i0 + S k)%nat by lia. apply Hfull. exact Hk. }
+  assert (HIS : pinv_an (S i0) an) by (eapply pinv_an_mono; [|exact HI]; lia).
+  destruct o as [nd ext a xs out|nd ext b xs out|nd e].
+  - destruct ext.
+    + apply (IH (S i0) an); assumption.
+    + set (an' := fold_left (pn_xchg ST ns nd) xs an) in *.
+      assert (HI' : pinv_an (S i0) an') by (apply (fold_pn_inv i0 _ nd Hn0); [intros x Hx; exact Hx|exact HIS]).
+      assert (Hrest : In (i, fr) (plain_node_check ST ns an' (S i0) r) -> plain_evidence i fr) by (apply IH; assumption).
+      destruct (last (map Some xs) None) as [x|] eqn:EL; [|now apply Hrest].
+      destruct out as [cols pg rows t| |e]; try (now apply Hrest).
+      destruct (x_req x) as [f| |] eqn:EQ; try (now apply Hrest).
+      destruct (x_resp x) as [b| | | | | |] eqn:ER; try (now apply Hrest).
+      destruct (rb_meta b) as [n|nid c] eqn:EM; [|now apply Hrest].
+      destruct (f_skip f && negb (is_nil (fst (an' nd (xa_stmt a)))) &&
+                negb (list_eqb col_eqb cols (fst (an' nd (xa_stmt a))))) eqn:EC; [|now apply Hrest].
+      destruct Hin as [E|Hin]; [|now apply Hrest]. inversion E; subst i fr. clear E.
+      apply andb_true_iff in EC. destruct EC as [EC NE]. apply andb_true_iff in EC. destruct EC as [SK NN].
+      apply negb_true_iff in NE. apply negb_true_iff in NN. apply is_nil_false in NN.
+      assert (NEQ : fst (an' nd (xa_stmt a)) <> cols).
+      { intros E. rewrite E in NE. rewrite list_eqb_col_refl in NE. discriminate. }
+      exists nd, a, xs, cols, pg, rows, t. split; [exact Hn0|]. split.
+      { exists x, f, b, n. split; [now apply last_some_in|]. auto. }
+      destruct (HI' nd (xa_stmt a)) as [A B].
+      destruct (snd (an' nd (xa_stmt a))) eqn:ES.
+      * destruct (B eq_refl) as [j [o [x0 [Hj [Hnj [Hxj RP]]]]]].
+        exists j, o, x0, (fst (an' nd (xa_stmt a))). split; [lia|]. auto.
+      * rewrite <- (A eq_refl). split; assumption.
+  - destruct ext.
+    + apply (IH (S i0) an); assumption.
+    + apply (IH (S i0) (fold_left (pn_xchg ST ns nd) xs an)); try assumption.
+      apply (fold_pn_inv i0 _ nd Hn0); [intros x Hx; exact Hx|exact HIS].
+  - apply (IH (S i0) an); assumption.
+Qed.
+End PlainSound.
+
+(* with the acceptor: a hit is in the class of its shape *)
+Lemma plain_node_check_sound ST ns init tr c' st' prep i fr :
+  g_accept ST (ginit init) O tr = (c', V_ok st') ->
+  In (i, fr) (plain_node_check ST ns (fun nd s => (prep nd s, false)) O tr) ->
+  exists nd a xs cols pg rows t,
+    nth_error tr i = Some (TO_exec nd false a xs (OB_rows cols pg rows t)) /\
+    if fr then KnownClass ST st' i cols
+    else forall pa, In (prep nd (xa_stmt a)) pa -> KnownClassPrep pa false (xa_use_cached a) cols.
+Proof.
+  intros HA Hin.
+  destruct (g_accept_sound ST _ _ _ _ _ HA) as [_ HM].
+  assert (EV : plain_evidence ST ns tr prep i fr).
+  { eapply (plain_node_check_trace ST ns tr prep tr O); [intros k o Hk; exact Hk| |exact Hin].
+    intros nd s. simpl. split; [reflexivity|discriminate]. }
+  destruct EV as (nd & a & xs & cols & pg & rows & t & Hn & (x & f & b & n & Hx & HQ & HS & _) & EV).
+  exists nd, a, xs, cols, pg, rows, t. split; [exact Hn|].
+  (* cached metadata was requested: the recorded frame is the model's, built without the extension *)
+  assert (Huc : xa_use_cached a = true).
+  { destruct (accepted_sentences ST init tr c' st' HA i nd false a xs _ Hn) as [_ [_ [H3 _]]].
+    destruct (H3 f) as [m [Hf _]]; [rewrite <- HQ; now apply in_map|].
+    rewrite Hf in HS. simpl in HS. now apply cp_skip_noext in HS. }
+  pose proof (HM i _ Hn) as Mi. simpl in Mi. destruct Mi as [Hxi [Hei _]].
+  destruct fr.
+  - destruct EV as (j & o & x0 & c0 & Hj & Hnj & Hx0 & RP & NE).
+    exists a. split; [exact Hxi|]. split; [exact Hei|]. split; [exact Huc|].
+    destruct RP as (tx & pm & RQ & _ & RR & RC & RN).
+    assert (HR : In (RPrepared (s_id (ST (xa_stmt a))) pm) (k_rcvd (g_calls st' j))).
+    { pose proof (HM j _ Hnj) as Mj. destruct o as [nd' e' a' xs' out'|nd' e' b' xs' out'|nd' e']; simpl in Hx0; [| |destruct Hx0].
+      - simpl in Mj. destruct Mj as [_ [_ [Hr _]]]. rewrite Hr. apply in_rev. rewrite rev_involutive.
+        rewrite <- RR. now apply in_map.
+      - simpl in Mj. destruct Mj as [_ [_ [Hr _]]]. rewrite Hr. apply in_rev. rewrite rev_involutive.
+        rewrite <- RR. now apply in_map. }
+    exists j, (s_id (ST (xa_stmt a))), pm. split; [exact HR|]. split; [reflexivity|]. rewrite RC. auto.
+  - destruct EV as [N1 N2]. intros pa Hpa. split; [split; [reflexivity|exact Huc]|].
+    exists (prep nd (xa_stmt a)). auto.
+Qed.
+
+(* ---- plain_node_check = its positional specification (both directions) ---- *)
+Definition pn_step (ST : nat -> stmt) (ns : nat) (an : nat -> nat -> list col * bool) (o : top) :=
+  match o with
+  | TO_exec nd false _ xs _ | TO_batch nd false _ xs _ => fold_left (pn_xchg ST ns nd) xs an
+  | _ => an
+  end.
+Definition pn_fold (ST : nat -> stmt) (ns : nat) (an : nat -> nat -> list col * bool) (tr : list top) :=
+  fold_left (pn_step ST ns) tr an.
+
+(* operation k of the history is a hit with flag fr, given the bookkeeping of everything recorded up to and
+   including it *)
+Definition pn_hit (ST : nat -> stmt) (ns : nat) (an : nat -> nat -> list col * bool) (tr : list top) (k : nat) (fr : bool) : Prop :=
+  exists nd a xs cols pg rows t x f b n,
+    nth_error tr k = Some (TO_exec nd false a xs (OB_rows cols pg rows t)) /\
+    last (map Some xs) None = Some x /\ x_req x = Q_execute f /\ x_resp x = RRows b /\ rb_meta b = RM_none n /\
+    f_skip f = true /\
+    let e := pn_fold ST ns an (firstn (S k) tr) nd (xa_stmt a) in
+    fst e <> [] /\ fst e <> cols /\ fr = snd e.
+
+Lemma list_eqb_col_false a b : list_eqb col_eqb a b = false <-> a <> b.
+Proof.
+  split.
+  - intros H E. subst. rewrite list_eqb_col_refl in H. discriminate.
+  - intros N. destruct (list_eqb col_eqb a b) eqn:E; [|reflexivity]. exfalso. apply N. now apply list_eqb_col_eq.
+Qed.
+Lemma is_nil_iff {A} (l : list A) : is_nil l = false <-> l <> [].
+Proof. destruct l; simpl; split; congruence. Qed.
+
+Lemma plain_node_check_spec ST ns : forall tr an i0 i fr,
+  In (i, fr) (plain_node_check ST ns an i0 tr) <-> exists k, i = (i0 + k)%nat /\ pn_hit ST ns an tr k fr.
+Proof.
+  induction tr as [|o r IH]; intros an i0 i fr.
+  - simpl. split; [intros []|]. intros [k [_ H]]. destruct H as (nd & a & xs & cols & pg & rows & t & x & f & b & n & Hn & _).
+    destruct k; discriminate Hn.
+  - (* shifting the positional statement by one operation *)
+    assert (SH : forall an', an' = pn_step ST ns an o ->
+              ((exists k, i = (S i0 + k)%nat /\ pn_hit ST ns an' r k fr) <->
+               (exists k, i = (i0 + S k)%nat /\ pn_hit ST ns an (o :: r) (S k) fr))).
+    { intros an' ->. split; intros [k [E H]]; exists k; (split; [lia|]);
+        destruct H as (nd & a & xs & cols & pg & rows & t & x & f & b & n & Hn & H1 & H2 & H3 & H4 & H5 & H6);
+        exists nd, a, xs, cols, pg, rows, t, x, f, b, n; repeat (split; [assumption|]); exact H6. }
+    assert (TAIL : forall an', an' = pn_step ST ns an o ->
+              (In (i, fr) (plain_node_check ST ns an' (S i0) r) <->
+               exists k, i = (i0 + S k)%nat /\ pn_hit ST ns an (o :: r) (S k) fr)).
+    { intros an' E. rewrite IH. now apply SH. }
+    (* a hit at position 0 needs this operation to be an execute on a node without the extension *)
+    assert (NOHEAD : (forall nd a xs out, o <> TO_exec nd false a xs out) ->
+              ((exists k, i = (i0 + k)%nat /\ pn_hit ST ns an (o :: r) k fr) <->
+               (exists k, i = (i0 + S k)%nat /\ pn_hit ST ns an (o :: r) (S k) fr))).
+    { intros NO. split.
+      - intros [[|k] [E H]]; [|eauto]. exfalso.
+        destruct H as (nd & a & xs & cols & pg & rows & t & x & f & b & n & Hn & _). simpl in Hn. inversion Hn. eapply NO; eauto.
+      - intros [k [E H]]. eauto. }
+    destruct o as [nd ext a xs out|nd ext b xs out|nd e].
+    + destruct ext.
+      * simpl. rewrite (TAIL an eq_refl). symmetry. apply NOHEAD. intros; discriminate.
+      * cbn [plain_node_check]. set (an' := fold_left (pn_xchg ST ns nd) xs an).
+        assert (EA : an' = pn_step ST ns an (TO_exec nd false a xs out)) by reflexivity.
+        (* is position 0 a hit? *)
+        assert (HEAD : forall fr0, pn_hit ST ns an (TO_exec nd false a xs out :: r) 0 fr0 <->
+                  exists cols pg rows t x f b n, out = OB_rows cols pg rows t /\ last (map Some xs) None = Some x /\
+                    x_req x = Q_execute f /\ x_resp x = RRows b /\ rb_meta b = RM_none n /\ f_skip f = true /\
+                    fst (an' nd (xa_stmt a)) <> [] /\ fst (an' nd (xa_stmt a)) <> cols /\ fr0 = snd (an' nd (xa_stmt a))).
+        { intros fr0. split.
+          - intros (nd0 & a0 & xs0 & cols & pg & rows & t & x & f & b & n & Hn & H1 & H2 & H3 & H4 & H5 & H6).
+            simpl in Hn. inversion Hn; subst. exists cols, pg, rows, t, x, f, b, n. repeat (split; [assumption||reflexivity|]). exact H6.
+          - intros (cols & pg & rows & t & x & f & b & n & -> & H1 & H2 & H3 & H4 & H5 & H6).
+            exists nd, a, xs, cols, pg, rows, t, x, f, b, n. split; [reflexivity|]. repeat (split; [assumption|]). exact H6. }
+        assert (SPLIT : (exists k, i = (i0 + k)%nat /\ pn_hit ST ns an (TO_exec nd false a xs out :: r) k fr) <->
+                        ((i = i0 /\ pn_hit ST ns an (TO_exec nd false a xs out :: r) 0 fr) \/
+                         exists k, i = (i0 + S k)%nat /\ pn_hit ST ns an (TO_exec nd false a xs out :: r) (S k) fr)).
+        { split.
+          - intros [[|k] [E H]]; [left; split; [lia|exact H]|right; eauto].
+          - intros [[E H]|[k [E H]]]; [exists O; split; [lia|exact H]|eauto]. }
+        rewrite SPLIT, <- (TAIL an' EA), HEAD. clear SPLIT HEAD TAIL SH NOHEAD.
+        destruct (last (map Some xs) None) as [x|] eqn:EL.
+        2:{ split; [now right|]. intros [[_ (c & p & ro & t & x & f & b & n & _ & H & _)]|H]; [discriminate|exact H]. }
+        destruct out as [cols pg rows t| |e].
+        2:{ split; [now right|]. intros [[_ (c & p & ro & t & x0 & f & b & n & H & _)]|H]; [discriminate|exact H]. }
+        2:{ split; [now right|]. intros [[_ (c & p & ro & t & x0 & f & b & n & H & _)]|H]; [discriminate|exact H]. }
+        destruct (x_req x) as [f| |] eqn:EQ.
+        2:{ split; [now right|]. intros [[_ (c & p & ro & t0 & x0 & f0 & b0 & n0 & _ & H1 & H2 & _)]|H]; [inversion H1; subst; congruence|exact H]. }
+        2:{ split; [now right|]. intros [[_ (c & p & ro & t0 & x0 & f0 & b0 & n0 & _ & H1 & H2 & _)]|H]; [inversion H1; subst; congruence|exact H]. }
+        destruct (x_resp x) as [b| | | | | |] eqn:ER;
+          try (split; [now right|]; intros [[_ (c & p & ro & t0 & x0 & f0 & b0 & n & _ & H1 & _ & H3 & _)]|H]; [inversion H1; subst; congruence|exact H]).
+        destruct (rb_meta b) as [n|nid c] eqn:EM.
+        2:{ split; [now right|]. intros [[_ (c0 & p & ro & t0 & x0 & f0 & b0 & n & _ & H1 & _ & H3 & H4 & _)]|H]; [inversion H1; subst; rewrite ER in H3; inversion H3; subst; congruence|exact H]. }
+        destruct (f_skip f && negb (is_nil (fst (an' nd (xa_stmt a)))) &&
+                  negb (list_eqb col_eqb cols (fst (an' nd (xa_stmt a))))) eqn:EC.
+        -- apply andb_true_iff in EC. destruct EC as [EC NE]. apply andb_true_iff in EC. destruct EC as [SK NN].
+           apply negb_true_iff in NE. apply negb_true_iff in NN. apply is_nil_iff in NN.
+           assert (NEQ : fst (an' nd (xa_stmt a)) <> cols).
+           { intros E. rewrite E in NE. rewrite list_eqb_col_refl in NE. discriminate. }
+           split.
+           ++ intros [E|H]; [|now right]. inversion E; subst. left. split; [reflexivity|].
+              exists cols, pg, rows, t, x, f, b, n. repeat (split; [reflexivity||assumption|]). reflexivity.
+           ++ intros [[-> (c0 & p & ro & t0 & x0 & f0 & b0 & n0 & H0 & H1 & H2 & H3 & H4 & H5 & H6 & H7 & H8)]|H]; [|now right].
+              left. rewrite H8. reflexivity.
+        -- split; [now right|]. intros [[_ (c0 & p & ro & t0 & x0 & f0 & b0 & n0 & H0 & H1 & H2 & H3 & H4 & H5 & H6 & H7 & _)]|H]; [|exact H].
+           exfalso. inversion H0; subst. inversion H1; subst. rewrite EQ in H2. inversion H2; subst.
+           rewrite H5 in EC. apply is_nil_iff in H6. rewrite H6 in EC.
+           assert (list_eqb col_eqb c0 (fst (an' nd (xa_stmt a))) = false) by (apply list_eqb_col_false; intros EE; now apply H7).
+           rewrite H in EC. discriminate.
+    + destruct ext.
+      * simpl. rewrite (TAIL an eq_refl). symmetry. apply NOHEAD. intros; discriminate.
+      * simpl. rewrite (TAIL _ eq_refl). symmetry. apply NOHEAD. intros; discriminate.
+    + simpl. rewrite (TAIL an eq_refl). symmetry. apply NOHEAD. intros; discriminate.
+Qed.
